@@ -48,6 +48,15 @@ def main() -> None:
                     events.append(json.dumps([ev["op"], ev["ph"], ev["lvl"], ordered(ev["args"]), ordered(ev["put"]), ev["del"], ordered(ev["ng"]), ev["exc"]]))
                 for nm, st in beh["stages"].items():
                     events.append(json.dumps(["state", nm, ordered(st["H"]), ordered(st["ord"]), ordered(st["ng"])]))
+                if inp["dom"] != "S" and not beh["exc"]:
+                    # the graph REBUILT from its dictionary (names, nesting, and the insertion order of every level) is a result too
+                    from numba_scfg.core.datastructures.scfg import SCFG
+
+                    try:
+                        st2 = project(SCFG.from_dict(scfg.to_dict())[0])
+                        events.append(json.dumps(["rebuilt", ordered(st2["H"]), ordered(st2["ord"]), ordered(st2["ng"])]))
+                    except Exception as e:
+                        events.append(json.dumps(["rebuilt-exc", type(e).__name__]))
                 if inp["dom"] == "S" and not beh["exc"]:
                     import ast
 
